@@ -14,6 +14,7 @@ package c12
 
 import (
 	"fmt"
+	"iter"
 	"runtime"
 	"sort"
 	"strconv"
@@ -50,7 +51,7 @@ func init() {
 						f = true
 					}
 				}
-				if (op == "range" || op == "all" || op == "keys" || op == "values") && o != "[]" && !strings.HasPrefix(o, "n=0") {
+				if (op == "range" || op == "all" || op == "rangeseq" || op == "keys" || op == "values") && o != "[]" && !strings.HasPrefix(o, "n=0") {
 					trav = true
 				}
 			}
@@ -77,6 +78,9 @@ func init() {
 
 func corpus() []core.Case {
 	return []core.Case{
+		// iterator handles: obtained before Clear / Set / Map, ranged after; twice; after an early break; nested
+		{Lines: []string{"@ C12 kv 0", "set 1 10", "set 2 20", "seq 0", "clear", "rangeseq 0 9", "set 3 30", "rangeseq 0 9", "rangeseq 0 9", "seq 1", "mapset 4 40", "rangeseq 1 1", "rangeseq 1 9", "nestseq 0", "del 3 4", "nestseq 1", "rangeseq 0 9", "clear", "set 5 50"}},
+		{Lines: []string{"@ C12 kv 2", "seq 0", "rangeseq 0 3", "set 1 1", "set 2 2", "set 3 3", "rangeseq 0 2", "rangeseq 0 0", "keys", "values", "set 1 9", "del 2", "keys", "values", "clear", "keys", "mapset 7 7", "values", "nestseq 0"}},
 		{Lines: []string{"@ C12 kv 0", "setnx 1 10", "setnx 1 11", "get 1", "setx 2 20", "has 2", "len", "setx 1 12", "get 1"}},
 		{Lines: []string{"@ C12 kv 4", "set 1 10", "set 2 20", "set 3 30", "keys", "values", "range 9", "all 9", "range 2", "all 1", "len", "clear", "len", "keys", "range 3"}},
 		{Lines: []string{"@ C12 kv 2", "set 1 10", "set 2 20", "getwithmap 1:0 5:55 2:7", "getwithlock 1", "getwithlock 9", "del 1 9 2", "len", "mapset 4 40", "maplen", "mapdel 4", "contains 4", "del"}},
@@ -87,9 +91,10 @@ func gen(r *core.Rand, tier string) core.Case {
 	lines := []string{fmt.Sprintf("@ C12 kv %d", r.Range(0, 8))}
 	n := r.Range(1, 30)
 	next := 1
+	haveSeq := false
 	key := func() int { return r.Range(0, 5) }
 	for i := 0; i < n; i++ {
-		switch r.Pick(10, 12, 10, 10, 6, 5, 3, 5, 4, 4, 5, 5, 3, 3, 3, 4, 2, 3) {
+		switch r.Pick(10, 12, 10, 10, 6, 5, 3, 5, 4, 4, 5, 5, 3, 3, 3, 4, 2, 3, 2, 5) {
 		case 0:
 			lines = append(lines, fmt.Sprintf("get %d", key()))
 		case 1:
@@ -146,6 +151,20 @@ func gen(r *core.Rand, tier string) core.Case {
 			lines = append(lines, "maplen")
 		case 17:
 			lines = append(lines, fmt.Sprintf("getwithlock %d", key()))
+		case 18:
+			lines = append(lines, fmt.Sprintf("seq %d", r.Range(0, 2)))
+			haveSeq = true
+		case 19:
+			if !haveSeq {
+				lines = append(lines, "seq 0")
+				haveSeq = true
+				continue
+			}
+			if r.Chance(25) {
+				lines = append(lines, "nestseq 0")
+			} else {
+				lines = append(lines, fmt.Sprintf("rangeseq 0 %d", r.Range(0, 7)))
+			}
 		}
 	}
 	return core.Case{Lines: lines, Tag: "seq"}
@@ -301,8 +320,42 @@ func showTraversal(s *mapz.SafeKV[int, int], len0 int, visited []pair) string {
 	return fmt.Sprintf("n=%d partial", len(visited))
 }
 
+// seqState: what a sequential case keeps besides the SafeKV — iterator handles obtained
+// from All() and not (only) ranged at once, and the results ledger: every slice returned
+// by Keys()/Values() together with an independent copy; a later call must not change an
+// earlier result.
+type seqState struct {
+	slots  map[int]iter.Seq2[int, int]
+	ledger []ledgerEntry
+}
+
+type ledgerEntry struct {
+	op        string
+	got, copy []int
+}
+
+func (st *seqState) record(op string, xs []int) {
+	st.ledger = append(st.ledger, ledgerEntry{op: op, got: xs, copy: append([]int(nil), xs...)})
+}
+
+// ledgerOK re-compares every earlier result with its copy.
+func (st *seqState) ledgerOK() (string, bool) {
+	for i, e := range st.ledger {
+		if len(e.got) != len(e.copy) {
+			return fmt.Sprintf("result %d (%s) changed length", i, e.op), false
+		}
+		for j := range e.got {
+			if e.got[j] != e.copy[j] {
+				return fmt.Sprintf("result %d (%s) changed at index %d: %d -> %d", i, e.op, j, e.copy[j], e.got[j]), false
+			}
+		}
+	}
+	return "", true
+}
+
 func impl(c core.Case) []string {
 	var s *mapz.SafeKV[int, int]
+	st := &seqState{slots: map[int]iter.Seq2[int, int]{}}
 	stuck := false
 	return core.RunOps(c,
 		func(hdr []string) string {
@@ -320,16 +373,19 @@ func impl(c core.Case) []string {
 			if stuck {
 				return "dead"
 			}
-			o := watchdogOp(func() string { return seqStep(s, t) })
+			o := watchdogOp(func() string { return seqStep(s, st, t) })
 			if o == "deadlock" || o == "timeout" {
 				stuck = true
+			}
+			if why, ok := st.ledgerOK(); !ok {
+				return "ledger-bad:" + strings.ReplaceAll(why, " ", "_")
 			}
 			return o
 		})
 }
 
 // seqStep performs one op of a sequential case on the real SafeKV.
-func seqStep(s *mapz.SafeKV[int, int], t []string) string {
+func seqStep(s *mapz.SafeKV[int, int], st *seqState, t []string) string {
 	args := make([]int, 0, len(t))
 	if t[0] != "getwithmap" {
 		for _, a := range t[1:] {
@@ -408,12 +464,16 @@ func seqStep(s *mapz.SafeKV[int, int], t []string) string {
 		if !need(0) {
 			return "bad-op"
 		}
-		return showInts(s.Keys())
+		ks := s.Keys()
+		st.record("keys", ks)
+		return showInts(append([]int(nil), ks...))
 	case "values":
 		if !need(0) {
 			return "bad-op"
 		}
-		return showInts(s.Values())
+		vs := s.Values()
+		st.record("values", vs)
+		return showInts(append([]int(nil), vs...))
 	case "range":
 		if !need(1) || args[0] < 0 {
 			return "bad-op"
@@ -438,6 +498,46 @@ func seqStep(s *mapz.SafeKV[int, int], t []string) string {
 			}
 		}
 		return showTraversal(s, len0, vis)
+	case "seq":
+		// obtain an iterator handle now, range it later
+		if !need(1) || args[0] < 0 {
+			return "bad-op"
+		}
+		st.slots[args[0]] = s.All()
+		return "ok"
+	case "rangeseq":
+		if !need(2) || args[0] < 0 || args[1] < 0 {
+			return "bad-op"
+		}
+		seq, ok := st.slots[args[0]]
+		if !ok {
+			return "bad-op"
+		}
+		len0 := s.Len()
+		var vis []pair
+		for k, v := range seq {
+			vis = append(vis, pair{k, v})
+			if len(vis) >= args[1] {
+				break
+			}
+		}
+		return showTraversal(s, len0, vis)
+	case "nestseq":
+		if !need(1) || args[0] < 0 {
+			return "bad-op"
+		}
+		seq, ok := st.slots[args[0]]
+		if !ok {
+			return "bad-op"
+		}
+		outer, inner := 0, 0
+		for range seq {
+			outer++
+			for range seq { // read lock taken again by the same goroutine: no writer exists here
+				inner++
+			}
+		}
+		return fmt.Sprintf("outer=%d inner=%d", outer, inner)
 	case "clear":
 		if !need(0) {
 			return "bad-op"
@@ -471,6 +571,12 @@ func seqStep(s *mapz.SafeKV[int, int], t []string) string {
 // the Lean model): every method is the corresponding plain-map function.
 func check(c core.Case, out []string) *core.Failure {
 	ref := map[int]int{}
+	seqSlots := map[int]bool{}
+	for i := 1; i < len(out) && i < len(c.Lines); i++ {
+		if strings.HasPrefix(out[i], "ledger-bad:") {
+			return &core.Failure{Key: "result-mutated", Desc: fmt.Sprintf("after op %d %q a slice returned by an EARLIER Keys()/Values() call has changed (%s): results share memory with the map or with each other", i, c.Lines[i], strings.TrimPrefix(out[i], "ledger-bad:"))}
+		}
+	}
 	for i := 1; i < len(c.Lines); i++ {
 		t := core.Toks(c.Lines[i])
 		if i < len(out) && out[i] == "deadlock" {
@@ -543,7 +649,21 @@ func check(c core.Case, out []string) *core.Failure {
 				vs = append(vs, v)
 			}
 			want = showInts(vs)
-		case "range", "all":
+		case "seq":
+			want = "ok"
+			seqSlots[a[0]] = true
+		case "nestseq":
+			if !seqSlots[a[0]] {
+				continue
+			}
+			want = fmt.Sprintf("outer=%d inner=%d", len(ref), len(ref)*len(ref))
+		case "range", "all", "rangeseq":
+			if t[0] == "rangeseq" {
+				if !seqSlots[a[0]] {
+					continue
+				}
+				a = a[1:] // a handle carries no state: the CURRENT content is enumerated
+			}
 			lim := a[0]
 			if lim < 1 {
 				lim = 1
@@ -587,6 +707,12 @@ func classify(c core.Case, out []string) []string {
 				ls = append(ls, "get-hit")
 			} else {
 				ls = append(ls, "get-miss")
+			}
+		case "rangeseq":
+			if strings.HasSuffix(o, "partial") {
+				ls = append(ls, "held-seq-partial")
+			} else {
+				ls = append(ls, "held-seq-complete")
 			}
 		case "range", "all":
 			if strings.HasSuffix(o, "partial") {
